@@ -75,7 +75,11 @@ def enc_val(x, depth=0):
     if isinstance(x, (bool, np.bool_)): return [int(x)]
     if isinstance(x, (int, float, np.integer, np.floating)): return [enc_num(x)]
     if isinstance(x, (complex, np.complexfloating)): return [enc_num(x.real), enc_num(x.imag)]
-    if isinstance(x, AbstractNDArray): return [NAN + 4, len(np.shape(x._array))] + list(np.shape(x._array)) + enc_arr(x._array)
+    if isinstance(x, AbstractNDArray):
+        out = [NAN + 4, len(np.shape(x._array))] + list(np.shape(x._array)) + enc_arr(x._array)
+        m = x.__dict__.get("mask")           # a structure's value includes the mask it is attached to (plain attribute, no call)
+        if isinstance(m, AbstractNDArray): out += [NAN + 9] + list(np.shape(m._array)) + enc_arr(m._array)
+        return out
     if isinstance(x, np.ndarray): return [NAN + 4, x.ndim] + list(x.shape) + enc_arr(x)
     if isinstance(x, (tuple, list)):
         out = [NAN + 5, len(x)]
@@ -575,6 +579,9 @@ def build_graph(cfg):
     aa = import_aa()
     H, W = cfg["shape"]
     m = np.ones((H, W), bool); m[1:H - 1, 1:W - 1] = False
+    if cfg.get("border0"): m[:] = False
+    b = cfg.get("border", 1)
+    if b > 1: m[:] = True; m[b:H - b, b:W - b] = False
     for (y, x) in cfg.get("holes", []): m[y, x] = True
     mask = aa.Mask2D(mask=m, pixel_scales=1.0)
     dv = np.array(cfg["data"], dtype=float).reshape(H, W)
@@ -585,9 +592,14 @@ def build_graph(cfg):
     psf = aa.Kernel2D.no_mask(values=pv, pixel_scales=1.0)
     osd = aa.OverSamplingDataset(uniform=aa.OverSamplingUniform(sub_size=1), pixelization=aa.OverSamplingUniform(sub_size=cfg.get("sub", 1)))
     ds = aa.Imaging(data=data, noise_map=noise, psf=psf, over_sampling=osd)
-    grid = ds.grids.pixelization
-    osg = grid.over_sampler.over_sampled_grid
     mappers = []
+    if cfg["mappers"]:
+        # the mappers' grids come from a throw-away dataset, so that `ds` itself has never been read
+        ds0 = aa.Imaging(data=aa.Array2D(values=dv.copy(), mask=mask), noise_map=aa.Array2D(values=nv.copy(), mask=mask), psf=psf,
+                         over_sampling=aa.OverSamplingDataset(uniform=aa.OverSamplingUniform(sub_size=1),
+                                                              pixelization=aa.OverSamplingUniform(sub_size=cfg.get("sub", 1))))
+        grid = ds0.grids.pixelization
+        osg = grid.over_sampler.over_sampled_grid
     for (ph, pw, coeff) in cfg["mappers"]:
         mesh = aa.Mesh2DRectangular.overlay_grid(grid=osg, shape_native=(ph, pw))
         mg = aa.MapperGrids(mask=mask, source_plane_data_grid=osg, source_plane_mesh_grid=mesh)
@@ -597,13 +609,24 @@ def build_graph(cfg):
                                     no_regularization_add_to_curvature_diag_value=1.0)
     return ds, mappers, settings, [m, dv, nv, pv, mask, data, noise, psf, osd, settings]
 
+PRELOADABLE = {"curvature_matrix": "curvature_matrix", "curvature_matrix_mapper_diag": "_curvature_matrix_mapper_diag",
+               "regularization_matrix": "regularization_matrix", "operated_mapping_matrix": "operated_mapping_matrix"}
 def make_inversion(cfg, preload_F=None):
+    """cfg["preloads"]: names of aa.Preloads arguments, each filled with a private copy of the quantity computed on a separate
+    fresh inversion (the caller's precomputed arrays: they are `owned`, hence fingerprinted)"""
     aa = import_aa()
     ds, mappers, settings, owned = build_graph(cfg)
     kw = {}
-    if preload_F is not None:
-        pre = aa.Preloads(curvature_matrix=preload_F)
+    pk = {}
+    if preload_F is not None: pk["curvature_matrix"] = preload_F
+    for name in cfg.get("preloads", []):
+        src, *_ = make_inversion({k: v for k, v in cfg.items() if k != "preloads"})
+        v = getattr(src, PRELOADABLE[name], None)
+        if v is not None: pk[name] = np.array(v)
+    if pk:
+        pre = aa.Preloads(**pk)
         kw["preloads"] = pre
+        owned = owned + [pre] + list(pk.values())
     inv = aa.Inversion(dataset=ds, linear_obj_list=mappers, settings=settings, **kw)
     return inv, ds, mappers, owned
 
@@ -690,6 +713,57 @@ def run_graph(inp):
     if bad: res["detail"] = "; ".join(bad[:5])
     return res
 
+# ----------------------------------------------------------------------------- dataset derivations (Python-side relation)
+DS_VIEWS = {"grids": view_grids, "convolver": view_convolver, "w_tilde": view_w_tilde}
+def ds_read(ds, name):
+    try:
+        v = getattr(ds, name)
+        return DS_VIEWS[name](v) if name in DS_VIEWS else enc_val(v)
+    except Exception as e:   # noqa
+        return exc_code(e)
+def ds_derive(ds, d, owned):
+    aa = import_aa()
+    how = d["how"]
+    if how == "trim": return ds.trimmed_after_convolution_from(kernel_shape=(3, 3))
+    if how == "over_sampling":
+        osd = aa.OverSamplingDataset(uniform=aa.OverSamplingUniform(sub_size=d["sub"])) if d.get("sub") else None
+        owned.append(osd)
+        return ds.apply_over_sampling(over_sampling=osd) if osd is not None else ds.apply_over_sampling()
+    m2 = np.array(d["mask"], dtype=bool)
+    mask2 = aa.Mask2D(mask=m2, pixel_scales=1.0)
+    owned += [m2, mask2]
+    if how == "mask": return ds.apply_mask(mask=mask2)
+    if how == "noise_scaling":
+        return ds.apply_noise_scaling(mask=mask2, noise_value=d.get("noise_value", 1.0e8), signal_to_noise_value=d.get("snr"))
+    raise ValueError(how)
+def ds_play(cfg, pre_reads, derivs, post_reads):
+    """builds the dataset, reads [pre_reads] on it, derives, reads [post_reads] on every derived dataset and again on the source"""
+    ds, mappers, settings, owned = build_graph(dict(cfg, mappers=[], w_tilde=False))
+    from autoarray.dataset.imaging.dataset import Imaging
+    owned = owned + [Imaging.__init__.__defaults__, Imaging.apply_over_sampling.__defaults__]
+    fp = leaves(owned)
+    for q in pre_reads: ds_read(ds, q)
+    out = []
+    cur = ds
+    for d in derivs:
+        for q in d.get("reads_before", []): ds_read(cur, q)
+        try: cur = ds_derive(cur, d, owned)
+        except Exception as e:   # noqa
+            out.append(exc_code(e)); break
+        for q in post_reads: out.append(ds_read(cur, q))
+    for q in post_reads: out.append(ds_read(ds, q))
+    return out, leaves_changed(fp, leaves(owned))
+def run_dsderive(inp):
+    got, changed = ds_play(inp["cfg"], inp["pre_reads"], inp["derivs"], inp["post_reads"])
+    ref, _ = ds_play(inp["cfg"], [], [{k: v for k, v in d.items() if k != "reads_before"} for d in inp["derivs"]], inp["post_reads"])
+    bad = [f"observation {i} depends on earlier reads" for i, (a, b) in enumerate(zip(got, ref)) if a != b]
+    if len(got) != len(ref): bad.append("different number of observations")
+    if changed: bad.append("caller-owned input changed: " + ",".join(changed[:4]))
+    res = {"coq": None, "out": {"n": len(got), "bad": bad[:4]}, "py_ok": not bad, "nontrivial": bool(inp["pre_reads"]) and bool(inp["derivs"]),
+           "kind": "dsderive:" + "+".join(d["how"] for d in inp["derivs"])}
+    if bad: res["detail"] = "; ".join(bad[:4])
+    return res
+
 # ----------------------------------------------------------------------------- seeded simulation
 def run_seed(inp):
     aa = import_aa()
@@ -707,6 +781,11 @@ def run_seed(inp):
                                       noise_seed=inp["seed"], add_poisson_noise_to_data=True)
             ds = sim.via_image_from(image=image)
             outs.append(bits(ds.data.native._array) + bits(ds.noise_map.native._array))
+        elif inp["via"] == "interferometer":
+            uv = np.array([[1.0, 2.0], [3.0, -1.0], [0.5, 0.25], [-2.0, 1.0]])
+            sim = aa.SimulatorInterferometer(uv_wavelengths=uv, exposure_time=inp["exposure"], noise_sigma=0.5, noise_seed=inp["seed"])
+            ds = sim.via_image_from(image=image)
+            outs.append(bits(np.real(ds.data._array)) + bits(np.imag(ds.data._array)))
         elif inp["via"] == "poisson":
             exp = aa.Array2D.full(fill_value=inp["exposure"], shape_native=(H, W), pixel_scales=1.0)
             outs.append(bits(preprocess.poisson_noise_via_data_eps_from(data_eps=image, exposure_time_map=exp, seed=inp["seed"])))
@@ -722,6 +801,7 @@ def run_case(inp):
     if op == "inv": return run_inv(inp)
     if op == "graph": return run_graph(inp)
     if op == "seed": return run_seed(inp)
+    if op == "dsderive": return run_dsderive(inp)
     raise ValueError(op)
 
 # ----------------------------------------------------------------------------- generators
@@ -951,7 +1031,8 @@ def rand_cfg(rng):
     mappers = [(3, 3, rng.choice([1.0, 2.0]))] + ([(2, 2, rng.choice([1.0, None]))] if two else [])
     return {"shape": [H, W], "holes": [list(h) for h in holes], "data": [rng.randint(0, 20) for _ in range(H * W)],
             "noise": [rng.choice([1, 2, 4]) for _ in range(H * W)], "mappers": [list(m) for m in mappers],
-            "w_tilde": rng.random() < 0.5, "positive": rng.random() < 0.3, "sub": rng.choice([1, 1, 2])}
+            "w_tilde": rng.random() < 0.5, "positive": rng.random() < 0.3, "sub": rng.choice([1, 1, 2]),
+            "preloads": sorted(rng.sample(sorted(PRELOADABLE), rng.choice([0, 0, 1, 2])))}
 
 def gen_inputs(tier, rng):
     big = tier == "thorough"
@@ -968,6 +1049,7 @@ def gen_inputs(tier, rng):
         cfg = rand_cfg(rng)
         cfg["mappers"] = [[3, 3, rng.choice([1.0, 2.0])]]
         cfg["positive"] = False
+        cfg["preloads"] = []
         preload = rng.random() < 0.5
         qs = [rng.choice(["QF", "QFR"] + (["QPre"] if preload else [])) for _ in range(rng.randint(2, 7))]
         yield {"op": "inv", "cfg": cfg, "preload": preload, "qs": qs}
@@ -979,9 +1061,38 @@ def gen_inputs(tier, rng):
             w = rng.choice(who)
             reads.append([w, rng.choice(GRAPH_Q["mapper" if w.startswith("mapper") else w])])
         yield {"op": "graph", "cfg": cfg, "reads": reads}
+    # the D20 witness: two mappers, w-tilde, a preloaded block-diagonal curvature matrix
+    yield {"op": "graph", "cfg": {"shape": [5, 6], "holes": [[2, 2]], "data": list(range(30)), "noise": [2] * 30, "mappers": [[3, 3, 1.0], [2, 2, 1.0]],
+                                  "w_tilde": True, "positive": False, "sub": 1, "preloads": ["curvature_matrix_mapper_diag"]},
+           "reads": [["inv", "curvature_matrix"], ["inv", "curvature_reg_matrix"], ["inv", "curvature_matrix"], ["inv", "reconstruction"]]}
+    dsq = ["grids", "convolver", "w_tilde", "grid", "signal_to_noise_map", "data", "noise_map", "shape_native"]
+    # the D11 witness through the dataset API
+    yield {"op": "dsderive", "cfg": {"shape": [7, 7], "holes": [], "data": list(range(49)), "noise": [2] * 49, "border": 2},
+           "pre_reads": ["grids", "convolver", "w_tilde"], "derivs": [{"how": "trim", "reads_before": []}],
+           "post_reads": ["grids", "convolver", "w_tilde", "data"]}
+    for k in range(300 if big else 30):
+        H, W = rng.randint(6, 8), rng.randint(6, 8)
+        cfg = {"shape": [H, W], "holes": [], "data": [rng.randint(0, 20) for _ in range(H * W)], "noise": [rng.choice([1, 2, 4]) for _ in range(H * W)]}
+        if rng.random() < 0.4: cfg["border0"] = True
+        else: cfg["border"] = rng.choice([1, 2, 2])
+        derivs = []
+        for _ in range(rng.randint(1, 2)):
+            how = rng.choice(["trim", "over_sampling", "mask", "noise_scaling"])
+            d = {"how": how, "reads_before": rng.sample(dsq, rng.randint(0, 2))}
+            if how == "over_sampling": d["sub"] = rng.choice([None, 2])
+            if how in ("mask", "noise_scaling"):
+                m2 = [[(y < 2 or y > H - 3 or x < 2 or x > W - 3 or rng.random() < 0.15) for x in range(W)] for y in range(H)]
+                m2[H // 2][W // 2] = False
+                d["mask"] = m2
+                if how == "noise_scaling" and rng.random() < 0.5: d["snr"] = 2.0
+            derivs.append(d)
+            if how in ("mask", "noise_scaling"): break      # apply_mask on a masked dataset goes back to `unmasked`: one is enough
+        pre = rng.sample(dsq, rng.randint(1, 4))
+        post = sorted(set(pre[:2] + rng.sample(dsq, rng.randint(1, 3))))
+        yield {"op": "dsderive", "cfg": cfg, "pre_reads": pre, "derivs": derivs, "post_reads": post}
     for k in range(120 if big else 14):
         H, W = rng.randint(2, 4), rng.randint(2, 4)
-        via = rng.choice(["simulator", "simulator", "poisson", "gaussian"])
+        via = rng.choice(["simulator", "simulator", "poisson", "gaussian", "interferometer"])
         seed = rng.choice([1, 2, 7, 12345, rng.randint(0, 10 ** 6)]) if k % 7 else -1
         yield {"op": "seed", "via": via, "shape": [H, W], "image": [rng.randint(1, 30) for _ in range(H * W)],
                "exposure": rng.choice([10.0, 100.0, 300.0]), "sky": rng.choice([0.0, 1.0]), "psf": rng.random() < 0.5 and H >= 3 and W >= 3,
